@@ -33,6 +33,21 @@ def _ssa_names(atom):
         return [atom]
     return re.findall(r'%[\w.]+', atom) if atom.startswith('div(') else []
 
+def fn_stores(f, L, latch):
+    """stores executed on an iteration that leaves the body through `latch`: blocks from which latch is reachable inside the body"""
+    B, st = {latch}, [latch]
+    while st:
+        x = st.pop()
+        if x is L.header:
+            continue
+        for y in x.preds:
+            if y in L.body and y not in B:
+                B.add(y); st.append(y)
+    # a block that can reach the latch both with and without ... keep it simple: every store in those blocks that dominates the latch
+    from .cfg import dominators, dominates
+    idom = dominators(f)
+    return [i for b in B for i in b.insts if i.op == 'store' and (b is latch or dominates(idom, b, latch))]
+
 def _pieces(P, f, pc, dst_arg, src_args):
     """-> (pieces, problems). piece = dict(kind='loop'|'single', a, b, w, T, end, store, guard, order)"""
     LS = loops_of(P, f, pc)
@@ -41,15 +56,42 @@ def _pieces(P, f, pc, dst_arg, src_args):
     for st in [i for i in f.insts() if i.op == 'store']:
         L = innermost(LS, st.bb)
         pt = pc.ptr(st.ops[1])
+        pit = None
         if L is not None:
-            pt = L.ptr_at_iteration(*pt) or pt
+            pit = L.ptr_at_iteration(*pt)
+            pt = pit or pt
         if pt[0] not in roots:
             continue
         w = type_bytes(st.ty)
         if L is None:
             pieces.append(dict(kind='single', a=pt[1], b=None, w=w, T=None, store=st, order=f.order.index(st.bb), loop=None))
             continue
-        ab = affine_in_t(pt[1])
+        ab = affine_in_t(pt[1]) if pit is not None else None
+        if ab is None:
+            # the offset's induction variable has no uniform step: look at each way round the loop separately.  An iteration
+            # that advances the element index by s must write s elements; one that advances without writing leaves a hole
+            raw = pc.ptr(st.ops[1])[1]
+            edges = []
+            for b_ in L.body:
+                if b_ is L.header:
+                    continue
+                if any(mp.op == 'phi' for mp in b_.insts[:1]):
+                    edges += [(p_, b_) for p_ in b_.preds if p_ in L.body]
+            from .cfg import dominators, dominates
+            idom = dominators(f)
+            for phi in [p_ for p_ in L.phis if p_.res in raw.atoms()]:
+                for (src, dst) in edges:
+                    Lv = L.via_edge(src, dst)
+                    init_, step_ = Lv.recurrence(phi)
+                    sv = step_.const_value() if step_ is not None else None
+                    if sv is None:
+                        continue
+                    on_path = [i2 for b2 in L.body for i2 in b2.insts if i2.op == 'store' and (b2 is src or dominates(idom, b2, src))
+                               and pc.ptr(i2.ops[1])[0] == pc.ptr(st.ops[1])[0]]
+                    written = len({str(pc.ptr(s2.ops[1])[1]) for s2 in on_path})
+                    if written < sv:
+                        problems.append((st, f'the loop at line {st.line} advances by {sv} elements on the path through line {src.insts[-1].line} which writes {written}: '
+                                             f'lanes differ in coverage - {sv - written} element(s) of the destination are skipped there'))
         hg = [g for g in L.guards() if g.block is L.header]
         T = L.trip(hg[0]) if len(hg) == 1 else None
         if ab is None:
